@@ -37,9 +37,9 @@ class K2(K1):
 
     def __init__(self, path):
         K1.__init__(self, path)
-        self.q = 'qq'
+        self.q = ''                          # readable properties whose current values are empty / zero
         self.w = 3
-        self.p2 = 8
+        self.p2 = 0
 
     def __len__(self):                       # a container-like application object that is currently empty
         return 0
@@ -51,7 +51,7 @@ class K2(K1):
 CLS = {'K1': K1, 'K2': K2}
 PROPS = 'org.freedesktop.DBus.Properties'
 EXPECT = {'K1': {'org.verif.I1': {'p1': 7}, PROPS: {}},
-          'K2': {'org.verif.I1': {'p1': 7, 'p2': 8}, 'org.verif.I2': {'q': 'qq'}, PROPS: {}}}
+          'K2': {'org.verif.I1': {'p1': 7, 'p2': 0}, 'org.verif.I2': {'q': ''}, PROPS: {}}}
 
 
 def pstr(p):
